@@ -489,7 +489,8 @@ def run_scenario(sc, binary, jbin, base, fake_ssh=None, timeout=60, extra_env=No
             MUT = ('CreateRootAncestors', 'CreateOrUpdateFile', 'CreateSymlink', 'CreateFolder', 'DeleteFile', 'DeleteFolder', 'DeleteSymlink')
             n_mut = sum(1 for c in o.impl['dest_cmds'] if c in MUT)
             found = False
-            for stop in ([sc.faults.get('stop')] + ([n_mut] if sc.faults.get('stop') is None else [])):
+            stops = [sc.faults.get('stop')] + ([n_mut] if sc.faults.get('stop') is None and sc.placement[1] != 'R' else [])
+            for stop in stops:
                 prev = None
                 for lag in range(0, 200):
                     if stop == sc.faults.get('stop') and lag == sc.faults['lag']:
@@ -553,12 +554,13 @@ def compare(sc, o):
     # effect itself lies beyond the model's tree and the tree is not compared; the traces still are)
     if not any(e.startswith('T:') for e in m['events']):
         mm += diff_dest(m['fs'], im['after']['dest'])
-    # traces: exact sequences (the model is given the real per-side listing orders)
+    # traces: exact sequences (the model is given the real per-side listing orders).  A remote doer is another
+    # process whose command log is not collected: its trace is not compared (the trees, exit and summary are).
     mt = canon_model_trace(m['dest'])
-    if mt != im['dest_trace']:
+    if sc.placement[1] != 'R' and mt != im['dest_trace']:
         mm.append('dest trace differs: impl %s model %s' % (im['dest_trace'][:12], mt[:12]))
     ms = canon_model_trace(m['src'])
-    if ms != im['src_trace']:
+    if sc.placement[0] != 'R' and ms != im['src_trace']:
         mm.append('src trace differs: impl %s model %s' % (im['src_trace'][:12], ms[:12]))
     if len(m['prompts']) != im['nprompts']:
         mm.append('prompts: impl %d model %d' % (im['nprompts'], len(m['prompts'])))
